@@ -3,3 +3,4 @@ pub mod num;
 pub mod timing;
 pub mod curve_exact;
 pub mod framing;
+pub mod kv;
